@@ -20,7 +20,8 @@ pub fn library() -> Vec<PkgSpec> {
         PkgSpec::new(
             "t:q",
             Some("1.0.0"),
-            &[("h", f0.clone())],
+            // two same-typed imports: one node can satisfy both arguments of one instantiation
+            &[("h", f0.clone()), ("h2", f0.clone())],
             &[("f", f0.clone()), ("i", Ty::inst(&[("x", f0.clone()), ("y", f0.clone())]))],
         ),
         PkgSpec::new("t:r", None, &[("h", fp.clone())], &[("f", fp.clone())]),
@@ -82,10 +83,10 @@ pub fn universe(prop: &'static str, tier: Tier) -> Universe {
     u.alias_names = s(&["g", "j", "f", "i", "x", "zz"]);
     u.import_names = s(&["f", "h", "Not_Valid", "url=<https://e.x>"]);
     u.export_names = s(&["e1", "e2", "Not_Valid", "url=<https://e.x>"]);
-    u.arg_names = s(&["f", "i", "h", "zz"]);
+    u.arg_names = s(&["f", "i", "h", "h2", "zz"]);
     u.node_names = s(&["n1"]);
     u.define_names = s(&["e1", "t1"]);
-    u.names = classify_names(&["g", "j", "f", "i", "x", "zz", "h", "Not_Valid", "url=<https://e.x>", "e1", "e2", "t1", ""]);
+    u.names = classify_names(&["g", "j", "f", "i", "x", "zz", "h", "h2", "Not_Valid", "url=<https://e.x>", "e1", "e2", "t1", ""]);
     u.max_nodes = tier.pick(5, 5);
     u.max_pkgs = 3;
     u.ops = [
@@ -134,6 +135,8 @@ pub fn seeds() -> Vec<Vec<Op>> {
             Op::Import(s("h"), 0),
             Op::SetArg(0, s("f"), 1),
         ],
+        // one node satisfies two arguments of the same instantiation
+        vec![Op::Register(1), Op::Instantiate(1), Op::Import(s("h"), 0), Op::SetArg(0, s("h"), 1), Op::SetArg(0, s("h2"), 1)],
         // two packages, re-registration after unregister (slot / generation reuse)
         vec![Op::Register(2), Op::Register(1), Op::Unregister(2), Op::Register(0), Op::Instantiate(0), Op::Instantiate(1)],
     ]
